@@ -122,25 +122,13 @@ theorem deconv2d_constructed_iff (o : D2Opts) :
   | none => simp
   | some m =>
     simp only [Option.isNone_some, Bool.false_eq_true, if_false, Option.isSome_some, true_and]
-    cases hn : noiseType o.noise.toLower with
-    | none =>
-      cases hp : o.psf with
-      | square => cases hph : o.phantom <;> simp <;> split_ifs <;> simp_all
-      | nonsquare => cases hph : o.phantom <;> simp <;> split_ifs <;> simp_all
-      | other => simp
-      | str s =>
-        cases hs : psfName s.toLower with
-        | none => cases hph : o.phantom <;> simp <;> split_ifs <;> simp_all
-        | some nm => cases nm <;> cases hz : o.psfParamZero <;> cases hph : o.phantom <;> simp <;> split_ifs <;> simp_all
-    | some b =>
-      cases hp : o.psf with
-      | square => cases hph : o.phantom <;> simp <;> split_ifs <;> simp_all <;> omega
-      | nonsquare => cases hph : o.phantom <;> simp <;> split_ifs <;> simp_all
-      | other => simp
-      | str s =>
-        cases hs : psfName s.toLower with
-        | none => cases hph : o.phantom <;> simp <;> split_ifs <;> simp_all
-        | some nm => cases nm <;> cases hz : o.psfParamZero <;> cases hph : o.phantom <;> simp <;> split_ifs <;> simp_all <;> omega
+    cases hn : noiseType o.noise.toLower <;> cases hp : o.psf
+    all_goals first
+      | (cases hph : o.phantom <;> simp <;> (try split_ifs) <;> (try simp_all) <;> (try omega); done)
+      | (rename_i s
+         rcases hs : psfName s.toLower with _ | nm
+         · cases hph : o.phantom <;> simp [hs] <;> (try split_ifs) <;> (try simp_all) <;> (try omega)
+         · cases nm <;> cases hz : o.psfParamZero <;> cases hph : o.phantom <;> simp [hs, hz] <;> (try split_ifs) <;> (try simp_all) <;> (try omega))
 
 example : deconv2dRefusal ⟨"Neumann", .str "Moffat", false, .vector 9, "scaledGaussian"⟩ = none := by decide +kernel
 
